@@ -54,4 +54,4 @@ CLAIMS = {
 
 # properties whose check is finished, reviewed by the lead and quiet on the unchanged tree
 READY = ["C01", "C02", "C03", "C04", "C05", "C06", "C07", "C08", "C09", "C10", "C11", "C12", "C13", "C14",
-         "C15", "C16", "C18", "C20"]
+         "C15", "C16", "C17", "C18", "C19", "C20"]
